@@ -119,6 +119,9 @@ def make_annotation(p):
 
 def check_value(val, p):
     import numpy as np, jaxtyping
+    if p.get("vararg"):
+        q = {k: v for k, v in p.items() if k != "vararg"}
+        return all(check_value(v, q) for v in val)
     if "pytree" in p:
         return isinstance(val, make_annotation(p))
     dims = p["union"] if "union" in p else [p["dim"]]
@@ -140,6 +143,8 @@ def run_error_case(case):
         if "pytree" in p:
             import impl_pytree
             vals[p["name"]] = impl_pytree.build_value(p["value"])
+        if p.get("vararg"):
+            vals[p["name"]] = tuple(np.zeros(tuple(sh), dtype="float32") for sh in p["shapes"])      # def f(.., *rest: Float[.., dim])
     for var in case["variants"]:
         live = []
         orig = _storage.shape_str
@@ -173,6 +178,7 @@ def run_error_case(case):
                 for i in range(k0, len(allnames)):
                     g["DEF_" + allnames[i]] = vals[allnames[i]]
                     sig[i] = "%s=DEF_%s" % (allnames[i], allnames[i])
+            sig = [("*" + x) if by.get(x, {}).get("vararg") else x for x in sig]
             src = "def fname(%s):\n    return RET\n" % ", ".join(sig)
             exec(src, g)
             f = g["fname"]
@@ -185,7 +191,7 @@ def run_error_case(case):
             fn = jaxtyped(typechecker=get_checker(var["checker"]))(f)
             r = {"outcome": "ok"}
             try:
-                fn(*[vals[n] for n in allnames])
+                fn(*[v for n in allnames for v in (vals[n] if by.get(n, {}).get("vararg") else (vals[n],))])
             except AnnotationError as e:
                 r = {"outcome": "raise:AnnotationError", "is_typeerror": isinstance(e, TypeError)}
             except TypeCheckError as e:
